@@ -288,6 +288,29 @@ theorem readResponse_total_source (flex : Bool) (t : Ty) (stream : Bytes) :
     Safe (readResponse Gen.decoderCfg flex t stream) :=
   readResponse_total_bounded _ source_decoder_is_bounded (fun h hh => by simp [Gen.decoderCfg] at hh) flex t stream
 
+/-- **C20, request frames** (`ReadRequest`, the other place a frame size is taken from the wire): arbitrary bytes — size
+prefix, client-id length, header tag buffer, body — give a request or an error. -/
+theorem readRequest_total_bounded (cfg : Cfg) (hb : cfg.bounded = true) (hr : RecsSafe cfg) (flex : Bool) (t : Ty) (stream : Bytes) :
+    Safe (readRequest cfg flex t stream) := by
+  unfold readRequest
+  refine bind_safe _ _ (readInt_safe 4 _) fun size d => ?_
+  split
+  · simp [hb, Safe]
+  · refine bind_safe _ _ (readInt_safe 2 _) fun _ d => bind_safe _ _ (readInt_safe 2 _) fun _ d =>
+      bind_safe _ _ (readInt_safe 4 _) fun _ d => bind_safe _ _ (ds_all cfg hb hr _ d) fun _ d =>
+      bind_safe _ _ ?_ fun _ _ => by simp [Safe]
+    unfold readRequestBody
+    refine bind_safe _ _ ?_ fun _ d =>
+      bind_safe _ _ (ds_all cfg hb hr t d) fun v d => bind_safe _ _ (discardAll_safe d) fun _ _ => by simp [Safe]
+    split
+    · exact bind_safe _ _ (readUvarint_safe d) fun n d => bind_safe _ _ (tagCount_safe cfg n d hb) fun k d =>
+        skipHeaderTags_safe cfg hb k d
+    · simp [Safe]
+
+theorem readRequest_total_source (flex : Bool) (t : Ty) (stream : Bytes) :
+    Safe (readRequest Gen.decoderCfg flex t stream) :=
+  readRequest_total_bounded _ source_decoder_is_bounded (fun h hh => by simp [Gen.decoderCfg] at hh) flex t stream
+
 /-! ### record sets: `RecordSet.ReadFrom`, `readFromVersion1`, `readFromVersion2` inside the frame decoder -/
 
 theorem recsHandler_safe (rc : KV.RecordScan.RCfg) (hg : rc.allGuards = true) (crcI crcC : Bytes → Nat)
